@@ -418,6 +418,26 @@ impl Model {
     pub fn sjson(&self, s: &St) -> Value {
         json!({"d": s.d, "x": self.xjson(s.x)})
     }
+    /// pre-filter of the sweep (selection only): does the reported solution replay to the reported value ?  (variables in index order, an
+    /// undecided variable takes the default 0, as in DPModel!FeasibleSolution)
+    pub fn solution_consistent(&self, ret: &Value) -> bool {
+            let m = self;
+        if !ret["sol"]["some"].as_bool().unwrap_or(false) {
+            return !ret["has_value"].as_bool().unwrap_or(false);
+        }
+        let decs: Vec<(usize, usize)> = ret["sol"]["decs"].as_array().unwrap().iter().map(|d| (d[0].as_u64().unwrap() as usize, d[1].as_i64().unwrap().max(0) as usize)).collect();
+        let (mut x, mut v) = (m.root, m.v0);
+        for var in 0..m.n {
+            let a = decs.iter().find(|d| d.0 == var).map(|d| d.1).unwrap_or(0);
+            if !m.domain(var, x).contains(&a) {
+                return false;
+            }
+            let (t, c) = m.tr(var, x, a);
+            x = t;
+            v += c;
+        }
+        Some(v as i64) == ret["best_value"].as_i64() && decs.len() <= m.n
+    }
     pub fn djson(d: &Decision) -> Value {
         json!([d.variable.0, d.value])
     }
